@@ -146,7 +146,7 @@ Definition case_spec_ok (c : case) : bool :=
               && (mem_name Docs before || has_size Sdocs (full_sdocs_len p) before)))
   | CFault p k n impl_err impl_writes =>
       (* a failed write must come back as an error (Seal publishes iff it gets none) *)
-      impl_err || (total_index_writes p <? k)%nat
+      impl_err || (k =? 0)%nat || (total_index_writes p <? k)%nat
   | CLimit p init limit died ops =>
       match limit_fault p limit with
       | Some x => died && no_publish ops
